@@ -106,6 +106,8 @@ let () =
               | "permcols", p ->
                 let p = List.map (fun s -> nat_of_int (int_of_string s)) p in
                 (match perm_cols p u with Some u' -> Some (u', false, zero) | None -> None)
+              | "boundrow", [ up; j ] ->
+                (match bound_to_row !sentinel (up = "U") (nat_of_int (int_of_string j)) u with Some u' -> Some (u', false, zero) | None -> None)
               | "subst", at ->
                 let rec split = function a :: t :: r -> let (al, tl) = split r in (q_of_string a :: al, q_of_string t :: tl) | [] -> ([], []) | _ -> failwith "subst arity" in
                 let (al, tl) = split at in
